@@ -672,9 +672,8 @@ static int ec_insert(char *loc, char *cmd, char *arg, char *txt)
 	int n;
 	if (ex_region(loc, &beg, &end) && (beg != 0 || end != 0))
 		return 1;
-	if (cmd[0] == 'a')
-		if (beg + 1 <= lbuf_len(xb))
-			beg++;
+	if (cmd[0] == 'a')	/* after the last addressed line; line 0 for 0a */
+		beg = end;
 	if (cmd[0] != 'c')
 		end = beg;
 	n = lbuf_len(xb);
